@@ -15,6 +15,8 @@ the public functions of the numeric modules are therefore wrapped (harness-side 
       near    f(a) was just called; now f(a*(1+1e-7))                          -- memo keyed on "close enough" / rounded keys
       alias   f(b); b *= 1.001 in place (the caller re-uses its container); f(b)  -- cache holding a reference
       repeat  f(a) a second time                                               -- state machines driven by repeated calls
+* layout probe (same schedule): a float ndarray argument passed Fortran-ordered, as a transposed view or as a strided view must give
+  the same result (found: a pixel map rewritten on `R_tilt.ravel(order='K')` read a Fortran-ordered tilt matrix transposed).
 * container probe (same schedule): the same numbers passed as a list, a tuple or an ndarray must give the same result (found:
   three laue omega solvers raised TypeError on a list where tools accepts it -- repaired).
 * dtype probe (same schedule): integer-valued arguments passed once as floats and once as Python ints / integer arrays
@@ -217,6 +219,64 @@ def _container_variants(a):
     return []
 
 
+def _layout_variants(a):
+    """the same ndarray values in another memory layout: numpy semantics do not depend on it, so neither may the result"""
+    if not (isinstance(a, np.ndarray) and a.dtype.kind == 'f' and 0 < a.size <= 64):
+        return []
+    out = []
+    if a.ndim == 2 and min(a.shape) > 1:
+        out.append(('fortran-ordered', np.asfortranarray(a.copy())))
+        out.append(('transposed-view', a.T.copy().T))
+    if a.ndim in (1, 2):
+        big = np.zeros(tuple(2 * n_ for n_ in a.shape))
+        sl = tuple(slice(None, None, 2) for _ in a.shape)
+        big[sl] = a
+        out.append(('strided-view', big[sl]))
+    return out
+
+
+def _layout_probe(modname, name, f, args, kw, live):
+    if live[0] != 'ok' or _flat(live[1]) is None:
+        return
+    for i, a in enumerate(args):
+        for label, v in _layout_variants(a):
+            b = list(copy.deepcopy(args))
+            b[i] = v
+            r = _call(f, b, copy.deepcopy(kw))
+            STATS['layout_probes'] = STATS.get('layout_probes', 0) + 1
+            bad = r[0] != 'ok' or not _close(live[1], r[1])
+            if bad and len(CONTAINER_EVENTS) < 40:
+                CONTAINER_EVENTS.append({'fn': '%s.%s' % (modname.split('.')[-1], name), 'arg_index': i, 'container': label,
+                                         'original_container': 'C-contiguous ndarray', 'args': _plain(args),
+                                         'result': _plain(live[1]), 'result_other_container': _plain(r[1]) if r[0] == 'ok' else 'raised ' + str(r[1])})
+                return
+
+
+def _keyword_probe(modname, name, f, args, kw, live):
+    """the same call with every argument passed by keyword (names from the function's own signature) must give the same result or
+    the same exception: a validation / conversion that only looks at positional arguments (a decorator inspecting args[0]) is bypassed
+    by a keyword call"""
+    if kw or not args:
+        return
+    try:
+        ps = list(inspect.signature(f).parameters.values())
+    except (TypeError, ValueError):
+        return
+    if len(ps) < len(args) or any(p.kind != inspect.Parameter.POSITIONAL_OR_KEYWORD for p in ps[:len(args)]):
+        return
+    r = _call(f, [], {p.name: v for p, v in zip(ps, copy.deepcopy(args))})
+    STATS['keyword_probes'] = STATS.get('keyword_probes', 0) + 1
+    if live[0] == 'ok':
+        bad = r[0] != 'ok' or not _close(live[1], r[1])
+    else:
+        bad = r[0] == 'ok'          # the positional call raised, the keyword call went through
+    if bad and len(CONTAINER_EVENTS) < 40:
+        CONTAINER_EVENTS.append({'fn': '%s.%s' % (modname.split('.')[-1], name), 'arg_index': -1, 'container': 'keyword-arguments',
+                                 'original_container': 'positional-arguments', 'args': _plain(args), 'names': [p.name for p in ps[:len(args)]],
+                                 'result': _plain(live[1]) if live[0] == 'ok' else 'raised ' + str(live[1]),
+                                 'result_other_container': _plain(r[1]) if r[0] == 'ok' else 'raised ' + str(r[1])})
+
+
 def _container_probe(modname, name, f, args, kw, live):
     if live[0] != 'ok' or _flat(live[1]) is None:
         return
@@ -415,6 +475,9 @@ def _wrap(modname, name, f):
                 try:
                     if name not in NO_CONTAINER and not slow:
                         _container_probe(modname, name, f, a0, k0, live)
+                        _layout_probe(modname, name, f, a0, k0, live)
+                    if not slow:
+                        _keyword_probe(modname, name, f, a0, k0, live)
                 except Exception:
                     pass
                 finally:
@@ -492,12 +555,30 @@ def replay(v):
 
     def conv(x):
         return np.array(x, float) if isinstance(x, list) and x and isinstance(x[0], list) else x
+    if v.get('purity') == 'container' and v.get('container') == 'keyword-arguments':
+        base = [conv(x) for x in v['args']]
+        r1 = _call(f, copy.deepcopy(base), {})
+        r2 = _call(f, [], dict(zip(v['names'], copy.deepcopy(base))))
+        bad = (r1[0] == 'ok' and (r2[0] != 'ok' or not _close(r1[1], r2[1]))) or (r1[0] != 'ok' and r2[0] == 'ok')
+        print('replay %s (keyword call): positional %s | by keyword %s -> %s' % (v['fn'], _plain(r1[1]), _plain(r2[1]), 'VIOLATION' if bad else 'holds'))
+        return 1 if bad else 0
     if v.get('purity') == 'container':
         base = [np.array(x, float) if (i == v['arg_index'] and v['original_container'] == 'ndarray') else conv(x) for i, x in enumerate(v['args'])]
         other = list(copy.deepcopy(base))
         x = v['args'][v['arg_index']]
+        def _strided():
+            a_ = np.array(x, float)
+            big = np.zeros(tuple(2 * n_ for n_ in a_.shape))
+            sl = tuple(slice(None, None, 2) for _ in a_.shape)
+            big[sl] = a_
+            return big[sl]
+        if v['original_container'] == 'C-contiguous ndarray':
+            base[v['arg_index']] = np.array(x, float)
         other[v['arg_index']] = {'list': lambda: np.array(x, float).tolist(), 'ndarray': lambda: np.array(x, float),
-                                 'tuple': lambda: (tuple(map(tuple, x)) if x and isinstance(x[0], list) else tuple(x))}[v['container']]()
+                                 'tuple': lambda: (tuple(map(tuple, x)) if x and isinstance(x[0], list) else tuple(x)),
+                                 'fortran-ordered': lambda: np.asfortranarray(np.array(x, float)),
+                                 'transposed-view': lambda: np.array(x, float).T.copy().T,
+                                 'strided-view': _strided}[v['container']]()
         r1, r2 = _call(f, base, dict(v.get('kwargs') or {})), _call(f, other, dict(v.get('kwargs') or {}))
         bad = r1[0] == 'ok' and (r2[0] != 'ok' or not _close(r1[1], r2[1]))
         print('replay %s (container): %s %s | %s %s -> %s' % (v['fn'], v['original_container'], _plain(r1[1]), v['container'], _plain(r2[1]),
